@@ -233,14 +233,16 @@ def main():
         obs.append(Obligation(f"{nm}: in adaptation epochs the transition applies one dual-averaging step with the kernel's constants and the reported acceptance probability",
                               [e_tr], adapts, signature=f"{nm}:adapts"))
 
-        def start_goal(V, kin=kin, sks=sks, other=other, rng_ok=rng_ok):
+        rng_se = [et >= 0, et <= 4, kin["step_size"] > 0]        # start_epoch / end_epoch have no within-epoch time argument
+
+        def start_goal(V, kin=kin, sks=sks, other=other, rng_ok=rng_se):
             o = V.out
             return rng_ok, z3.And(cells(o.error_sum)[0] == 0, cells(o.log_avg_step_size)[0] == V.log(kin["step_size"]),
                                   cells(o.mu)[0] == V.log(10 * kin["step_size"]), cells(o.step_size)[0] == kin["step_size"],
                                   *[all_eq(getattr(o, f), getattr(sks, f)) for f in other])
         obs.append(Obligation(f"{nm}: start_epoch restarts dual averaging from the current step size", [e_st], start_goal, signature=f"{nm}:start"))
 
-        def end_goal(V, kin=kin, sks=sks, other=other, rng_ok=rng_ok):
+        def end_goal(V, kin=kin, sks=sks, other=other, rng_ok=rng_se):
             o = V.out
             return rng_ok, z3.And(cells(o.step_size)[0] == V.exp(kin["log_avg_step_size"]), *[all_eq(getattr(o, f), getattr(sks, f)) for f in other])
         obs.append(Obligation(f"{nm}: end_epoch makes the averaged step size the kernel's step size", [e_en], end_goal, signature=f"{nm}:end"))
